@@ -306,7 +306,11 @@ verdict_t check_tuner(const tcase_t& c, ctx_t& ctx)
     {
         tuner->parameter("tuner::max_evals") = c.max_evals;
         const auto spaces                    = make_spaces(c.grids, c.log10);
-        steps                                = tuner->optimize(spaces, callback, nano::make_null_logger());
+        // half of the cases run a COPY of the configured object (as ml::params_t and per-thread copies do); derived from generated data, so that old replay files keep their meaning
+        const bool via_clone = (c.max_evals % 2) == 1;
+        ctx.label_if(via_clone, "tuner-used-through-clone");
+        const auto cloned = via_clone ? tuner->clone() : nano::rtuner_t{};
+        steps             = (via_clone ? *cloned : *tuner).optimize(spaces, callback, nano::make_null_logger());
     }
     catch (const std::exception& e)
     {
